@@ -12,6 +12,8 @@ structure SubInv (chain : List Nat) (fin : Nat) (s : Sub) : Prop where
   sortedS : s.store.Pairwise (fun x y => x.1 < y.1)
   pos : ∀ b ∈ s.store, 1 ≤ b.1
   sortedT : s.tracked.Pairwise (fun x y => x.1 < y.1)
+  /-- the table holds exactly the in-memory entries, in the same order (entries are only ever appended at the end) -/
+  dbEq : s.db = s.tracked
 
 theorem le_lastNum_of_sorted : ∀ (l : List Blk), l.Pairwise (fun x y => x.1 < y.1) → ∀ x ∈ l, x.1 ≤ lastNum l := by
   intro l hs x hx
@@ -157,6 +159,34 @@ theorem trackAdd_sorted (tracked : List Blk) (b : Blk) (hs : tracked.Pairwise (f
         omega
       · rw [List.mem_singleton.mp h]; exact hc'
 
+theorem trackAdd_append (tracked : List Blk) (b : Blk) (h : ∀ x ∈ tracked, x.1 < b.1) :
+    trackAdd tracked b = tracked ++ [b] := by
+  unfold trackAdd
+  have hn : b ∉ tracked := fun hb => by have := h b hb; omega
+  rw [if_neg hn]
+  have h1 : tracked.filter (fun t => decide (t.1 < b.1)) = tracked := by
+    rw [List.filter_eq_self]; intro x hx; simpa using h x hx
+  have h2 : tracked.filter (fun t => decide (b.1 < t.1)) = [] := by
+    rw [List.filter_eq_nil_iff]; intro x hx; have := h x hx; simp only [decide_eq_true_eq]; omega
+  rw [h1, h2, List.append_nil]
+
+/-- rebuilding the map from rows that are already in ascending order gives those rows -/
+theorem foldl_trackAdd_sorted : ∀ (l acc : List Blk), (acc ++ l).Pairwise (fun x y => x.1 < y.1) →
+    l.foldl trackAdd acc = acc ++ l := by
+  intro l
+  induction l with
+  | nil => intro acc _; simp
+  | cons x rest ih =>
+    intro acc h
+    simp only [List.foldl_cons]
+    have hx : ∀ a ∈ acc, a.1 < x.1 := fun a ha => (List.pairwise_append.mp h).2.2 a ha x (List.mem_cons_self ..)
+    rw [trackAdd_append acc x hx, ih (acc ++ [x]) (by simpa using h)]
+    simp
+
+theorem reload_sorted_self (l : List Blk) (h : l.Pairwise (fun x y => x.1 < y.1)) : reload l = l := by
+  unfold reload
+  rw [foldl_trackAdd_sorted l [] (by simpa using h)]; simp
+
 theorem stepOnce_inv (chain : List Nat) (fin : Nat) (s s' : Sub) (hi : SubInv chain fin s)
     (h : stepOnce chain fin s = some s') : SubInv chain fin s' := by
   unfold stepOnce at h
@@ -169,7 +199,7 @@ theorem stepOnce_inv (chain : List Nat) (fin : Nat) (s s' : Sub) (hi : SubInv ch
     obtain ⟨hge, hcan, _, _⟩ := nextDeliv_some chain _ b (by omega) hc
     have hlt : ∀ x ∈ s.store, x.1 < b.1 := fun x hx => by
       have := le_lastNum_of_sorted s.store hi.sortedS x hx; omega
-    refine ⟨?_, ?_, ?_, ?_, ?_⟩
+    refine ⟨?_, ?_, ?_, ?_, ?_, ?_⟩
     · intro x hx
       simp only at hx ⊢
       rcases List.mem_append.mp hx with hx | hx
@@ -204,6 +234,13 @@ theorem stepOnce_inv (chain : List Nat) (fin : Nat) (s s' : Sub) (hi : SubInv ch
       by_cases hf : b.1 ≤ fin
       · rw [if_pos hf]; exact hi.sortedT
       · rw [if_neg hf]; exact trackAdd_sorted _ _ hi.sortedT
+    · simp only
+      by_cases hf : b.1 ≤ fin
+      · rw [if_pos hf, if_pos hf]; exact hi.dbEq
+      · rw [if_neg hf, if_neg hf]
+        have hall : ∀ x ∈ s.tracked, x.1 < b.1 := fun x hx => hlt x (hi.trackedStored x hx)
+        have hn : b ∉ s.tracked := fun hb => by have := hall b hb; omega
+        rw [if_neg hn, trackAdd_append _ _ hall, hi.dbEq]
 
 theorem stepN_inv (chain : List Nat) (fin : Nat) : ∀ (k : Nat) (s : Sub), SubInv chain fin s →
     SubInv chain fin (stepN chain fin k s) := by
@@ -227,10 +264,11 @@ structure LoopSt (chain : List Nat) (fin : Nat) (s0 : Sub) (pre : List Blk) (s :
   store : s.store = s0.store
   sub : s.tracked.Sublist s0.tracked
   kept : ∀ b ∈ s0.tracked, b ∈ s.tracked ∨ (Canon chain b ∧ b.1 ≤ fin)
+  dbEq : s.db = s.tracked
 
 theorem loopSt_inv (chain : List Nat) (fin : Nat) (s0 s : Sub) (pre : List Blk) (hi0 : SubInv chain fin s0)
     (h : LoopSt chain fin s0 pre s) : SubInv chain fin s := by
-  refine ⟨?_, ?_, by rw [h.store]; exact hi0.sortedS, by rw [h.store]; exact hi0.pos, hi0.sortedT.sublist h.sub⟩
+  refine ⟨?_, ?_, by rw [h.store]; exact hi0.sortedS, by rw [h.store]; exact hi0.pos, hi0.sortedT.sublist h.sub, h.dbEq⟩
   · intro b hb
     rw [h.store] at hb
     rcases hi0.covered b hb with h1 | h1
@@ -288,7 +326,7 @@ theorem detectLoop_spec (chain : List Nat) (fin : Nat) (s0 : Sub) (hi0 : SubInv 
         have htc : Canon chain t := by unfold Canon; rw [hc, hv]
         have hT' : s0.tracked = (pre ++ [t]) ++ rest := by rw [hT]; simp
         apply ih (pre ++ [t]) _ hT'
-        refine ⟨?_, ?_, ?_, ?_⟩
+        refine ⟨?_, ?_, ?_, ?_, ?_⟩
         · intro b hb
           rcases List.mem_append.mp hb with h | h
           · exact hl.preCanon b h
@@ -315,6 +353,9 @@ theorem detectLoop_spec (chain : List Nat) (fin : Nat) (s0 : Sub) (hi0 : SubInv 
               · exact Or.inl (List.mem_filter.mpr ⟨h, by simpa using hbt⟩)
               · exact Or.inr h
           · rw [if_neg hf]; exact hl.kept b hb
+        · split
+          · simp only; rw [hl.dbEq]
+          · exact hl.dbEq
       · rw [if_neg hv]
         have hnc : ¬ Canon chain t := by unfold Canon; rw [hc]; intro h; exact hv (by simpa using h)
         have hlt_pre : ∀ b ∈ s0.tracked, b.1 < t.1 → b ∈ pre := by
@@ -330,7 +371,7 @@ theorem detectLoop_spec (chain : List Nat) (fin : Nat) (s0 : Sub) (hi0 : SubInv 
           have := List.mem_filter.mp hb
           rw [hl.store] at this
           exact ⟨this.1, by simpa using this.2⟩
-        refine ⟨⟨?_, ?_, ?_, ?_, ?_⟩, ?_, ?_, ?_⟩
+        refine ⟨⟨?_, ?_, ?_, ?_, ?_, ?_⟩, ?_, ?_, ?_⟩
         · intro b hb
           obtain ⟨hb0, hlt⟩ := hstore b hb
           rcases hi0.covered b hb0 with h1 | h1
@@ -350,6 +391,21 @@ theorem detectLoop_spec (chain : List Nat) (fin : Nat) (s0 : Sub) (hi0 : SubInv 
         · intro b hb
           exact hi0.pos b (hstore b hb).1
         · exact (hi0.sortedT.sublist hl.sub).sublist List.filter_sublist
+        · -- the table's range delete [t, last of the snapshot] removes what the in-memory cut removes
+          simp only
+          rw [hl.dbEq]
+          apply List.filter_congr
+          intro x hx
+          have hx0 : x ∈ s0.tracked := hl.sub.subset hx
+          have hle : x.1 ≤ lastNum (t :: rest) := by
+            rw [hT] at hx0
+            rcases List.mem_append.mp hx0 with h | h
+            · have h1 := hpre_lt x h
+              have h2 := le_lastNum_of_sorted (t :: rest) hsorted.2.1 t (List.mem_cons_self ..)
+              omega
+            · exact le_lastNum_of_sorted (t :: rest) hsorted.2.1 x h
+          simp only [decide_eq_decide]
+          omega
         · intro _ b hb
           obtain ⟨hb0, hlt⟩ := hstore b hb
           rcases hi0.covered b hb0 with h1 | h1
@@ -367,7 +423,7 @@ theorem detectSub_spec (chain : List Nat) (fin : Nat) (s : Sub) (hi : SubInv cha
     PassOK chain fin s (detectSub chain fin s) := by
   unfold detectSub
   exact detectLoop_spec chain fin s hi s.tracked [] s (by simp)
-    ⟨fun b hb => by simp at hb, rfl, List.Sublist.refl _, fun b hb => Or.inl hb⟩
+    ⟨fun b hb => by simp at hb, rfl, List.Sublist.refl _, fun b hb => Or.inl hb, hi.dbEq⟩
 
 
 theorem detectLoopCrash_inv (chain : List Nat) (fin : Nat) (s0 : Sub) (hi0 : SubInv chain fin s0) :
@@ -392,7 +448,7 @@ theorem detectLoopCrash_inv (chain : List Nat) (fin : Nat) (s0 : Sub) (hi0 : Sub
         have htc : Canon chain t := by unfold Canon; rw [hc, hv]
         have hT' : s0.tracked = (pre ++ [t]) ++ rest := by rw [hT]; simp
         apply ih (pre ++ [t]) _ hT'
-        refine ⟨?_, ?_, ?_, ?_⟩
+        refine ⟨?_, ?_, ?_, ?_, ?_⟩
         · intro b hb
           rcases List.mem_append.mp hb with h | h
           · exact hl.preCanon b h
@@ -418,12 +474,22 @@ theorem detectLoopCrash_inv (chain : List Nat) (fin : Nat) (s0 : Sub) (hi0 : Sub
               · exact Or.inl (List.mem_filter.mpr ⟨h, by simpa using hbt⟩)
               · exact Or.inr h
           · rw [if_neg hf]; exact hl.kept b hb
+        · split
+          · simp only; rw [hl.dbEq]
+          · exact hl.dbEq
       · rw [if_neg hv]; exact loopSt_inv chain fin s0 s pre hi0 hl
+
+/-- a restart changes nothing: the table holds the in-memory entries, in ascending order -/
+theorem restartSub_eq (chain : List Nat) (fin : Nat) (s : Sub) (hi : SubInv chain fin s) : restartSub s = s := by
+  unfold restartSub
+  have h : reload s.db = s.tracked := by rw [hi.dbEq]; exact reload_sorted_self _ hi.sortedT
+  rw [h]
 
 theorem detectCrashSub_inv (chain : List Nat) (fin : Nat) (s : Sub) (hi : SubInv chain fin s) :
     SubInv chain fin (detectCrashSub chain fin s) := by
   unfold detectCrashSub
-  exact detectLoopCrash_inv chain fin s hi s.tracked [] s (by simp)
-    ⟨fun b hb => by simp at hb, rfl, List.Sublist.refl _, fun b hb => Or.inl hb⟩
+  have := detectLoopCrash_inv chain fin s hi s.tracked [] s (by simp)
+    ⟨fun b hb => by simp at hb, rfl, List.Sublist.refl _, fun b hb => Or.inl hb, hi.dbEq⟩
+  rw [restartSub_eq chain fin _ this]; exact this
 
 end Aggkit.ReorgSync
